@@ -219,6 +219,58 @@ def problem_fingerprint(p):
   return 'mjb-unvalidated:' + field, 'field is not range-checked'
 
 
+def boundary_value(lib, m, field, i):
+  """Smallest out-of-range value for element i of a 'special' relation field (None if not applicable)."""
+  E = lib.enums
+  I = lambda f: np.asarray(getattr(m, f)).ravel()
+  try:
+    if field == 'jnt_qposadr':
+      return int(m.nq) - [7, 4, 1, 1][int(I('jnt_type')[i])] + 1
+    if field == 'jnt_dofadr':
+      return int(m.nv) - [6, 3, 1, 1][int(I('jnt_type')[i])] + 1
+    if field == 'sensor_adr':
+      return int(m.nsensordata) - int(I('sensor_dim')[i]) + 1
+    if field == 'hfield_adr':
+      return int(m.nhfielddata) - int(I('hfield_nrow')[i]) * int(I('hfield_ncol')[i]) + 1
+    if field == 'tex_adr':
+      return int(m.ntexdata) - int(I('tex_height')[i]) * int(I('tex_width')[i]) * int(I('tex_nchannel')[i]) + 1
+    if field == 'dof_simplenum':
+      return int(m.nv) - i + 1
+    if field == 'D_diag':
+      return int(m.nD)
+    if field in ('actuator_historyadr', 'sensor_historyadr'):
+      return int(m.nhistory)
+    if field == 'geom_dataid':
+      t = int(I('geom_type')[i])
+      return int(m.nmesh) if t in (E.mjGEOM_MESH, E.mjGEOM_SDF) else int(m.nhfield) if t == E.mjGEOM_HFIELD else None
+    if field in ('pair_signature', 'exclude_signature'):
+      return (int(m.nbody) << 16) + 0
+    if field in ('eq_obj1id', 'eq_obj2id'):
+      t = int(I('eq_type')[i])
+      if t in (E.mjEQ_CONNECT, E.mjEQ_WELD):
+        return modelref.objcount(lib, m, int(I('eq_objtype')[i]))
+      return {E.mjEQ_JOINT: int(m.njnt), E.mjEQ_TENDON: int(m.ntendon)}.get(t, int(m.nflex))
+    if field == 'wrap_objid':
+      t = int(I('wrap_type')[i])
+      return {E.mjWRAP_JOINT: int(m.njnt), E.mjWRAP_SITE: int(m.nsite), E.mjWRAP_SPHERE: int(m.ngeom),
+              E.mjWRAP_CYLINDER: int(m.ngeom)}.get(t)
+    if field == 'actuator_trnid':
+      t = int(I('actuator_trntype')[i // 2])
+      return {E.mjTRN_JOINT: int(m.njnt), E.mjTRN_JOINTINPARENT: int(m.njnt), E.mjTRN_TENDON: int(m.ntendon),
+              E.mjTRN_SITE: int(m.nsite), E.mjTRN_SLIDERCRANK: int(m.nsite), E.mjTRN_BODY: int(m.nbody)}.get(t)
+    if field == 'sensor_objid':
+      return modelref.objcount(lib, m, int(I('sensor_objtype')[i]))
+    if field == 'sensor_refid':
+      return modelref.objcount(lib, m, int(I('sensor_reftype')[i]))
+    if field == 'tuple_objid':
+      return modelref.objcount(lib, m, int(I('tuple_objtype')[i]))
+    if field == 'mesh_face':
+      return int(I('mesh_vertnum').max()) if m.nmesh else None
+  except Exception:
+    return None
+  return None
+
+
 # --------------------------------------------------------------------------------------------- the check
 
 class C31:
@@ -544,6 +596,10 @@ class C31:
                    'num too large / negative', [f, r.num])
       else:
         elem_cases(f, idxs, Q([1 << 20, -2, INT_MAX, INT_MIN, 7], [1 << 20, -2, 7]), 'special relation')
+        for i in idxs:      # the value just past the legal range of this element
+          bv = boundary_value(lib, m, f, i)
+          if bv is not None and bv >= 0:
+            elem_cases(f, [i], [bv], 'special relation')
     if other:
       # int arrays outside the reference table (types, flags, counts, bvh/graph payload ...): judged by the full
       # reference check and by surviving mj_makeData + mj_forward
